@@ -6,6 +6,7 @@
 mod conn;
 mod emit;
 mod gen;
+mod inject;
 mod rng;
 mod replay;
 mod show;
@@ -114,6 +115,7 @@ fn main() {
         "srv-c09" => suites::srvsuites::c09(&mut rec, &mut rng, thorough),
         "srv-c10" => suites::srvsuites::c10(&mut rec, &mut rng, thorough),
         "srv-c18" => suites::srvsuites::c18(&mut rec, &mut rng, thorough),
+        "srv-fault" => suites::srvsuites::srv_fault(&mut rec, &mut rng, thorough),
         "srv-conn" => suites::srvsuites::srv_conn(&mut rec, &mut rng, thorough),
         other => {
             eprintln!("unknown suite {}", other);
